@@ -45,8 +45,27 @@ func (c *Ctx) Export(k, v string) {
 
 // drawActor samples a callback actor's behaviour from its own lane.
 func drawActor(c *Ctx, lane string) *world.Actor {
-	l := c.L(lane)
-	return &world.Actor{Name: lane, Dev: c.Dev, Lane: l, Mode: l.Intn(5), Piece: l.Intn(5), UsePeek: l.Bool(), RetErr: l.Chance(1, 6)}
+	return drawActorSpec(c.L(lane)).New(c.Dev, lane)
+}
+
+// ActorSpec is a drawn actor behaviour; New instantiates it (several identical instances can
+// be made for differential runs).
+type ActorSpec struct {
+	Mode, Piece     int
+	UsePeek, RetErr bool
+	Seed            uint64
+}
+
+func drawActorSpec(l *core.Lane) ActorSpec {
+	return ActorSpec{Mode: l.Intn(5), Piece: l.Intn(5), UsePeek: l.Bool(), RetErr: l.Chance(1, 6), Seed: l.U64()}
+}
+
+func (s ActorSpec) New(dev *world.Device, name string) *world.Actor {
+	return &world.Actor{Name: name, Dev: dev, R: core.NewSplitMix(s.Seed), Mode: s.Mode, Piece: s.Piece, UsePeek: s.UsePeek, RetErr: s.RetErr}
+}
+
+func (s ActorSpec) String() string {
+	return fmt.Sprintf("{mode=%d piece=%d peek=%v reterr=%v}", s.Mode, s.Piece, s.UsePeek, s.RetErr)
 }
 
 // L returns a lane.
